@@ -41,6 +41,14 @@ def failCode {α} : Outcome α → Nat
   | .panic _ => 101
   | _ => 1
 
+/-- `reject_non_finite` lets the value through: its serialisation contains no NaN / ±inf
+    in numbers, lists or records (`contains_non_finite`, main.rs; function source text is
+    not looked into).  A value that cannot be serialised at all is not rejected here. -/
+def writable (v : Value) : Bool :=
+  match fromValue v with
+  | .ok sv => sv.finite
+  | _ => true
+
 /-- `outputs.insert(name, serializable)` when `to_serializable_value` succeeds; a value
     that cannot be serialised is skipped silently -/
 def declare (outs : Outputs) (name : String) (v : Value) : Outputs :=
@@ -48,22 +56,35 @@ def declare (outs : Outputs) (name : String) (v : Value) : Outputs :=
   | .ok sv => insertAL name sv outs
   | _ => outs
 
+/-- the value an `output` statement tries to emit.  `output name`: `bindings.get(name)`,
+    or else the value the identifier evaluated to (a built-in such as `map`, `inf`,
+    `constants`); `output name = e`: the value of the assignment. -/
+def Event.declared : Event → Option Value
+  | .outIdent _ r bound _ =>
+    (match bound with
+     | some v => some v
+     | none => (match r with | .ok v => some v | _ => none))
+  | .outAssign _ r _ => (match r with | .ok v => some v | _ => none)
+  | _ => none
+
+/-- the common part of both `output` forms: validate, serialise, refuse non-finite
+    numbers, insert; then the evaluation error, if any, ends the run -/
+def stepOutput (outs : Outputs) (name : String) (r : Outcome Value) (declared : Option Value)
+    (portable : Bool) : Step :=
+  match declared with
+  | some v =>
+    if !portable then .exit 1                           -- "[output error] Function contains unbound …"
+    else if !writable v then .exit 1                    -- "[output error] … is not finite …"
+    else if r.isOk then .next (declare outs name v) else .exit (failCode r)
+  | none => if r.isOk then .next outs else .exit (failCode r)
+
 /-- one iteration of the statement loop of `evaluate_source` -/
 def stepEvent (outs : Outputs) : Event → Step
   | .expr r => if r.isOk then .next outs else .exit (failCode r)
   | .outIdent name r bound portable =>
-    match bound with
-    | some v =>
-      if !portable then .exit 1                         -- "[output error] …"
-      else if r.isOk then .next (declare outs name v) else .exit (failCode r)
-    | none =>                                           -- not a bound variable: skipped
-      if r.isOk then .next outs else .exit (failCode r)
+    stepOutput outs name r (Event.declared (.outIdent name r bound portable)) portable
   | .outAssign name r portable =>
-    match r with
-    | .ok v =>
-      if !portable then .exit 1
-      else .next (declare outs name v)
-    | other => .exit (failCode other)
+    stepOutput outs name r (Event.declared (.outAssign name r portable)) portable
   | .comment => .next outs
 
 /-- the outputs object: member order = `IndexMap` order -/
@@ -109,7 +130,8 @@ def observe {Env Code} (ev : Evaluator Env Code) (env : Env) : Stmt Code → Eve
   | .outIdent n c =>
     let (r, env') := ev.eval env c
     let bound := ev.lookup env' n
-    (.outIdent n r bound (match bound with | some v => ev.portable env' v | none => true), env')
+    let declared := match bound with | some v => some v | none => (match r with | .ok v => some v | _ => none)
+    (.outIdent n r bound (match declared with | some v => ev.portable env' v | none => true), env')
   | .outAssign n c =>
     let (r, env') := ev.eval env c
     (.outAssign n r (match r with | .ok v => ev.portable env' v | _ => true), env')
@@ -146,12 +168,19 @@ def cliRun {Env Code} (ev : Evaluator Env Code) (pf : ParseFn) (pb : ParseBody)
 
 /-! ### vocabulary for the statements of C19 -/
 
-/-- the statement "parsed and evaluated successfully" (for an `output` of a function this
-    includes the portability check, whose failure is reported as `[output error]`) -/
+/-- the statement "parsed and evaluated successfully" (for an `output` this includes the two
+    checks whose failure is reported as `[output error]`: a function must be portable, and
+    the value must not contain NaN / ±inf) -/
 def Event.succeeded : Event → Bool
   | .expr r => r.isOk
-  | .outIdent _ r bound portable => r.isOk && (bound.isNone || portable)
-  | .outAssign _ r portable => r.isOk && portable
+  | .outIdent n r bound portable =>
+    r.isOk && (match Event.declared (.outIdent n r bound portable) with
+               | some v => portable && writable v
+               | none => true)
+  | .outAssign n r portable =>
+    r.isOk && (match Event.declared (.outAssign n r portable) with
+               | some v => portable && writable v
+               | none => true)
   | .comment => true
 
 /-- the name an `output` statement declares -/
@@ -160,11 +189,11 @@ def Event.declaredName : Event → Option String
   | .outAssign n _ _ => some n
   | _ => none
 
-/-- the value the declared name has at its declaration -/
-def Event.declaredValue : Event → Option (String × Value)
-  | .outIdent n _ (some v) _ => some (n, v)
-  | .outAssign n (.ok v) _ => some (n, v)
-  | _ => none
+/-- name and value of the declaration -/
+def Event.declaredValue (e : Event) : Option (String × Value) :=
+  match e.declaredName, e.declared with
+  | some n, some v => some (n, v)
+  | _, _ => none
 
 /-- the entry a successful `output` statement stores -/
 def Event.stored (e : Event) : Option (String × SV) :=
